@@ -48,6 +48,9 @@ func stepSig(s *world.Step) twinStep {
 func runC07(c *core.Ctx) *core.Outcome {
 	t := c.T
 	o := core.NewOutcome()
+	if t.Chance(1, 8) {
+		return c07Kept(c, o)
+	}
 	cfg := genCfg(t)
 	cfg.Backend = t.Weighted(3, 2, 1, 2)
 	cfg.SetSession = t.Chance(1, 2)
@@ -353,4 +356,89 @@ func loopTwin(t *tape.Tape, o *core.Outcome, L, X *world.Sess, inputs [][]byte, 
 		pos += res.Consumed
 	}
 	return nil
+}
+
+// c07Kept: two engine-per-request twins over stores of the same kind. One builds a new persister for
+// every request; the other keeps its persister between requests (gateway policy), so that every load
+// decodes into objects that still hold what the previous request left there - also when that request
+// failed and was not saved. Loading must replace all of it: the twins answer alike, request by request,
+// through failures to the end of the history.
+func c07Kept(c *core.Ctx, o *core.Outcome) *core.Outcome {
+	t := c.T
+	cfg := genCfg(t)
+	cfg.Backend = t.Weighted(3, 2, 1, 2)
+	cfg.SetSession = t.Chance(1, 2)
+	cfg.First = t.Chance(1, 5)
+	if cfg.First && cfg.CacheSize > 0 {
+		cfg.FirstContent = "-"
+	}
+	cfg.FinishAlways = t.Chance(1, 3)
+	prof := fullProfile(t, cfg.FlagCount)
+	a := app.Generate(t, prof)
+	if err := a.Validate(); err != nil {
+		panic("generator produced ill-formed app: " + err.Error())
+	}
+	o.Probes["kept_persister_twin_run"]++
+	wp := world.New(a, cfg)
+	wp.UseBackend()
+	defer wp.Close()
+	P := wp.NewSession("sess", true)
+	cfgK := cfg
+	cfgK.KeepPersister = true
+	cfgK.SessionViaStore = t.Chance(1, 2)
+	wk := world.New(a, cfgK)
+	wk.UseBackend()
+	defer wk.Close()
+	K := wk.NewSession("sess", true)
+	nreq := t.Range(4, 18)
+	okReq, unsaved := 0, 0
+	for i := 0; i < nreq; i++ {
+		t.Begin("request")
+		var in []byte
+		if i > 0 {
+			cur := ""
+			if p, _ := P.Position(); len(p) > 0 {
+				cur = p[len(p)-1]
+			}
+			in = genInput(t, a, cur, 2)
+		}
+		if t.Chance(1, 10) {
+			P.FailTemplateThisRequest, K.FailTemplateThisRequest = true, true
+		} else if t.Chance(1, 16) {
+			P.FailWriteThisRequest, K.FailWriteThisRequest = true, true
+		}
+		t.End()
+		sp := P.Request(in, true)
+		sk := K.Request(in, true)
+		o.Counts["requests"] += 2
+		o.Faults["restart"] += 2
+		o.States = append(o.States, stateHash(P))
+		if sp.Panic != "" || sk.Panic != "" {
+			o.Probes["foreign_panic"]++
+			break
+		}
+		if !sp.Finished {
+			unsaved++
+			o.Probes["request_not_saved_then_continued"]++
+		}
+		if stepSig(sp) != stepSig(sk) {
+			o.Fail("twin-diverge:fresh-persister/kept-persister", i, nil,
+				"request %d input %s: with a new persister per request (cont=%v execErr=%q flushErr=%q out=%s) != with the persister kept between requests (cont=%v execErr=%q flushErr=%q out=%s)",
+				i, short(string(in)), sp.Cont, sp.ExecErr, sp.FlushErr, short(sp.Out), sk.Cont, sk.ExecErr, sk.FlushErr, short(sk.Out))
+			break
+		}
+		if a1, a2 := snapKey(P.St, P.Ca), snapKey(K.St, K.Ca); a1 != a2 {
+			o.Fail("twin-diverge:fresh-persister/kept-persister", i, map[string]string{"at": "session-state"},
+				"request %d input %s: same answers, but the session with a new persister per request is {%s} and the one whose persister is kept is {%s}", i, short(string(in)), a1, a2)
+			break
+		}
+		if sp.ExecErr == "" && sp.FlushErr == "" {
+			okReq++
+		}
+	}
+	o.Nontrivial = okReq >= 3 && unsaved >= 1
+	if c.WantScenario || o.V != nil {
+		o.Scenario = map[string]interface{}{"fresh_persister": scenario(wp, nil), "kept_persister": scenario(wk, nil)["sessions"]}
+	}
+	return finish(o, wp, wk)
 }
